@@ -56,8 +56,8 @@ CLAIMED = {
             "validate_boost / validate_tie_breaker on every f32, the varint decoder on arbitrary bytes.",
             "Bounded: 3-6 byte strings. Outside: the full search pipeline, regex/wildcard compilation, script tokenizer, aggregation config."),
     "C17": ("4.C17", "Checksums and decoders: crc32 detects every single-byte change of a 4-byte (8 thorough) buffer; Wal::replay returns exactly the "
-            "intact prefix for every one-byte change of payload/checksum bytes and for the length/type changes that yield another valid frame, and for "
-            "every truncation; read_terms rejects every one-byte change of its payload/CRC; varint round trip and garbage tolerance.",
+            "intact prefix for every one-byte change of payload/checksum bytes and for every truncation; on hand-built records with arbitrary "
+            "checksum bytes two records differing only in type byte or payload are never both accepted; read_terms rejects every one-byte change of its payload/CRC; varint round trip and garbage tolerance.",
             "Trusted: crc32fast portable path (SIMD path assumed equivalent). Outside: verify_checksums / SegmentReader::open ordering (so the terms "
             "header that only the whole-file checksum protects), postings, fast-field and docstore decoders, manifest JSON."),
     "C19": ("4.C19", "Score-combination kernel only: combine_rescore_scores equals the documented formula bit-for-bit in all five modes for every pair of finite scores.",
